@@ -348,6 +348,21 @@ def _renumber(x, loff, boff):
     return x
 
 
+def _relocal(x, m):
+    """deep copy with local numbers replaced according to m (places and index projections)"""
+    if isinstance(x, dict):
+        ks = set(x.keys())
+        if 'l' in ks and ks <= {'l', 'pr'} and isinstance(x['l'], int):
+            o = {'l': m.get(x['l'], x['l'])}
+            if 'pr' in x:
+                o['pr'] = [({'ix': m.get(e['ix'], e['ix'])} if isinstance(e, dict) and 'ix' in e else e) for e in x['pr']]
+            return o
+        return {k: _relocal(v, m) for k, v in x.items()}
+    if isinstance(x, list):
+        return [_relocal(v, m) for v in x]
+    return x
+
+
 def _shift_term(t, boff, dest, target, unwind, ln):
     """callee terminator -> list of extra statements, new terminator"""
     k = t['k']
@@ -414,6 +429,18 @@ def inline_new_helpers(dd, known, max_rounds=4):
                     nn = _renumber(n, loff, boff)
                     nn.pop('arg', None)
                     b['names'].append(nn)
+                # opt-in (VERIF_SPLICE_RENAME=1, set by a rule module before it loads its crate): a helper whose result goes straight
+                # into a plain local of the caller writes that local itself, and a parameter that receives a moved plain local *is*
+                # that local - so `return self.helper(x)` reads like the code it replaced (no moved temporaries in between)
+                relmap = {}
+                if os.environ.get('VERIF_SPLICE_RENAME') == '1':
+                    if isinstance(t.get('dest'), dict) and not t['dest'].get('pr'):
+                        relmap[loff] = t['dest']['l']
+                    for i_, a_ in enumerate(t['args']):
+                        src_ = a_.get('mv') if isinstance(a_, dict) else None
+                        if isinstance(src_, dict) and not src_.get('pr') and isinstance(src_.get('l'), int):
+                            relmap[loff + 1 + i_] = src_['l']
+                first_new = len(blocks)
                 for hb in h['blocks']:
                     nbk = {'stmts': [_renumber(s, loff, boff) for s in hb['stmts']]}
                     if hb.get('cleanup') or blocks[bi].get('cleanup'):
@@ -434,7 +461,12 @@ def inline_new_helpers(dd, known, max_rounds=4):
                     nbk['stmts'].extend(extra)
                     nbk['term'] = nt
                     blocks.append(nbk)
-                binds = [{'p': {'l': loff + 1 + i}, 'rv': {'use': a}, 'ln': ln, 'inl': True} for i, a in enumerate(t['args'])]
+                binds = [{'p': {'l': loff + 1 + i}, 'rv': {'use': a}, 'ln': ln, 'inl': True} for i, a in enumerate(t['args']) if (loff + 1 + i) not in relmap]
+                if relmap:
+                    for nb_ in blocks[first_new:]:
+                        nb_['stmts'] = [_relocal(s_, relmap) for s_ in nb_['stmts']
+                                        if not (isinstance(s_, dict) and s_.get('inl') and loff in relmap and s_.get('p') == t['dest'] and (s_.get('rv') or {}).get('use') == {'mv': {'l': loff}})]
+                        nb_['term'] = _relocal(nb_['term'], relmap)
                 blocks[bi]['stmts'] = blocks[bi]['stmts'] + binds
                 blocks[bi]['term'] = {'k': 'goto', 't': boff, 'ln': ln, 'inlined': h['path']}
         if not changed:
